@@ -25,7 +25,7 @@ F_TCLOSE = "C11-tclose-raises-skips-channel-close"
 def op_str(spec):
     s = spec["op"] + ("." + spec["body"] if spec["op"] == "W" and spec.get("body") else "")
     f = spec.get("fault")
-    return s + (f"!{f[0][0]}{f[1]}{f[2][0] if len(f) > 2 else ''}" if f else "")
+    return s + (f"!{f[0] if len(f) == 2 else f[0][0]}{f[1]}{f[2][0] if len(f) > 2 else ''}" if f else "")
 
 
 def body_leaves_open(body, need):
